@@ -20,7 +20,7 @@ RULE = ('files from vlib.model.gen_file (bias: many segments, no-data/unlisted s
 ASSUMPTIONS = ['read_data is only specified for offset >= 0 and length >= 0 or None']
 REQUIRED = ['long_files', 'windows', 'slices', 'indices', 'windows_crossing_boundary', 'index_errors_checked', 'step0_checked',
             'contract:channel._read_channel_data.len', 'truncated_files']
-N = {'quick': 640, 'thorough': 12000}
+N = {'quick': 640, 'thorough': 20000}
 STEPS = [None, 1, -1, 2, -2, 3, -3, 0]
 
 
